@@ -243,6 +243,14 @@ theorem writes_flatMap {α : Type} (l : List α) (f : α → Task C V) :
   | nil => rfl
   | cons a l ih => simp [List.flatMap_cons, writes_append, ih]
 
+omit [DecidableEq C] in
+/-- the driver's `trace` lists exactly the loads (`reads`) and stores (`writes`) of a task, in program order -/
+theorem trace_spec (p : Task C V) :
+    reads p = ((trace p).filter fun x => !x.1).map (·.2) ∧ writes p = ((trace p).filter fun x => x.1).map (·.2) := by
+  induction p with
+  | nil => exact ⟨rfl, rfl⟩
+  | cons s p ih => cases s <;> simp [reads, writes, trace, ih.1, ih.2]
+
 theorem reads_denseTask (add : V → V → V) (trow : List Nat) (trialRows : List (List Nat))
     (val : Nat → Nat → Nat → V) :
     reads (denseTask add trow trialRows val) = writes (denseTask add trow trialRows val) := by
